@@ -239,7 +239,42 @@ impl WorkerState for W {
                     // the owner of a handle / package / closure dies while a panic unwinds its frame
                     // (resume_unwind: no panic hook, no message)
                     use std::panic::{AssertUnwindSafe, catch_unwind, resume_unwind};
-                    match b % 3 {
+                    match b % 4 {
+                        3 => {
+                            // a fresh package of its own: its last two owners (two clones of one handle) are dropped
+                            // on two threads at the same moment, twelve times over; whatever the compilations
+                            // allocated is gone afterwards (the page accounting after this step says so)
+                            if let Some(r) = pick(&st.runtimes, a) {
+                                let v = 1 + (b as i32 / 4) % 3;
+                                for round in 0..12 {
+                                    let rt = &st.runtimes[r].as_ref().unwrap().0;
+                                    let mut pkg = match compile_version(rt, v) {
+                                        Ok(p) => p,
+                                        Err(e) => return fail("rejected", e, &trace),
+                                    };
+                                    let h1 = match pkg.get_function::<fn(i32) -> i32>("other") {
+                                        Ok(h) => h,
+                                        Err(e) => return fail("get_function", format!("{e}"), &trace),
+                                    };
+                                    drop(pkg);
+                                    let h2 = h1.clone();
+                                    let barrier = std::sync::Arc::new(std::sync::Barrier::new(2));
+                                    let b2 = barrier.clone();
+                                    let t = std::thread::spawn(move || {
+                                        b2.wait();
+                                        drop(h2);
+                                    });
+                                    barrier.wait();
+                                    drop(h1);
+                                    if t.join().is_err() {
+                                        return fail("thread-panicked", "the thread dropping the handle panicked".into(), &trace);
+                                    }
+                                    if round == 0 {
+                                        trace.push(format!("12 x: compile(rt{r}, version {v}), get a handle, drop the package, drop two clones of the handle on two threads at once"));
+                                    }
+                                }
+                            }
+                        }
                         0 => {
                             if let Some(h) = pick(&st.handles, a) {
                                 let (hh, p, w) = st.handles[h].take().unwrap();
